@@ -225,12 +225,17 @@ class Program:
         # compiled), they are still considered to be equal, even if their targets differ. Similarly,
         # two programs with different names can still be considered equal.
 
+        # programs of different length are not equal (zip would only compare the common prefix)
+        if len(self.circuit) != len(prog.circuit):
+            return False
+
         for self_cmd, prog_cmd in zip(self.circuit, prog.circuit):
             names_eq = self_cmd.op.__class__ == prog_cmd.op.__class__
             param_eq = all(p1 == p2 for p1, p2 in zip(self_cmd.op.p, prog_cmd.op.p))
             modes_eq = all(m1 == m2 for m1, m2 in zip(self_cmd.reg, prog_cmd.reg))
+            dagger_eq = getattr(self_cmd.op, "dagger", False) == getattr(prog_cmd.op, "dagger", False)
 
-            if not all((names_eq, param_eq, modes_eq)):
+            if not all((names_eq, param_eq, modes_eq, dagger_eq)):
                 return False
 
         return True
